@@ -82,6 +82,10 @@ def one_case(v, pair, tftpc, c, idx, serial=False):
     base = f"f{idx}.bin"
     if idx % 5 == 3:
         base = f"f {idx} sp\u00e4ce \u6587.bin"   # legal but unusual: space and non-ASCII letters
+    elif idx % 11 == 7:
+        base = f"k:f{idx}.bin"                     # looks like a drive letter; an ordinary name here
+    elif idx % 11 == 9:
+        base = f"f{idx}.tar.gz"
     common = ["-i", c["ip"], "-p", str(srv.port), "-b", str(c["b"]), "-w", str(c["w"]), "-t", str(c["t"])]
     drops0 = N.udp_counters()
     replay = {"engine": "net", "case": c, "server_args": srv.args}
@@ -330,8 +334,9 @@ def run(tier):
                 if reruns > 12 and v.enough(12):
                     continue
             if problems and dropped == 0:
-                # rerun serially once: a failure must be reproducible without kernel drops
-                problems2, dropped2, replay2, rc2, err2 = one_case(v, pairs[(c["single"], c["ip"])][0], bins["tftpc"], c, 100000 + i)
+                # rerun serially once: a failure must be reproducible without kernel drops (the rerun index keeps the
+                # residues that select file name and content class: 100100 = 140 x 5 x 11 x 13)
+                problems2, dropped2, replay2, rc2, err2 = one_case(v, pairs[(c["single"], c["ip"])][0], bins["tftpc"], c, 100100 + i)
                 if problems2 and dropped2 == 0:
                     for p in problems2:
                         v.violation(f"C14/{c['dir']}/{'content' if 'stored' in p else 'side-effect'}", f"tftpc {c}: {p}", replay2)
@@ -340,7 +345,7 @@ def run(tier):
                 else:
                     v.note_inconclusive(f"case {c}: failed once ({problems[0][:120]}), passed on the serial rerun")
             elif problems:
-                problems2, dropped2, replay2, rc2, err2 = one_case(v, pairs[(c["single"], c["ip"])][0], bins["tftpc"], c, 200000 + i)
+                problems2, dropped2, replay2, rc2, err2 = one_case(v, pairs[(c["single"], c["ip"])][0], bins["tftpc"], c, 200200 + i)
                 if problems2 and dropped2 == 0:
                     for p in problems2:
                         v.violation(f"C14/{c['dir']}/{'content' if 'stored' in p else 'side-effect'}", f"tftpc {c}: {p}", replay2)
